@@ -25,22 +25,40 @@ CONFIGS = [{"s": s, "z": z} for s in SUBSETS for z in SUBSETS if not set(s) & se
 
 def warm():
     wd = workdir("c09-warm")
-    cf.gen(wd, "A3", 3, 2, 2, False)
+    cf.gen(wd, "A3", 3, 3, 2, False)
 
 
 def records(wd, tier):
-    g = cf.gen(wd, "A3", 3, 2, 2, False)[0]
+    g = cf.gen(wd, "A3", 3, 3, 2, False)[0]
     graphs = g["graphs"] if tier == "thorough" else g["graphs"][::2]
     singles = [e for e in g["events"] if len(e) == 1]
     pairs = [e for e in g["events"] if len(e) == 2]
+    triples = [e for e in g["events"] if len(e) == 3]
+
+    def chains(gr):
+        """three-atom events that follow a directed chain c -> b -> a of the graph: {a_b, b_c, c}"""
+        d = {tuple(e) for e in gr["d"]}
+        out = []
+        for e in triples:
+            by = {x["n"]: x for x in e}
+            if len(by) != 3:
+                continue
+            for a in by:
+                for b in by:
+                    for c in by:
+                        if (len({a, b, c}) == 3 and (c, b) in d and (b, a) in d and [i[0] for i in by[a]["iv"]] == [b]
+                                and [i[0] for i in by[b]["iv"]] == [c] and not by[c]["iv"]):
+                            out.append(e)
+        return out
     items = []
     for gi, gr in enumerate(graphs):
         for k in range(3 if tier == "quick" else 5):
             c1 = CONFIGS[(gi * 5 + k * 11) % 27]
             cd = [c1] if k % 3 != 2 else [c1, CONFIGS[(gi * 3 + k * 7 + 1) % 27]]
             ps = pairs[(gi * 13 + k * 101) % 97:: 97][:12]
+            ch = chains(gr)
             items.append({"g": gr, "gid": f"A3-{gi}-{k}", "cdoms": cd,
-                          "evs": singles[(gi + k) % 3:: 3] + ps[:6],
+                          "evs": singles[(gi + k) % 3:: 3] + ps[:6] + ch[k:: 5][:8] + triples[(gi * 31 + k * 7) % 997:: 997][:6],
                           "cevs": [[[p[0]], [p[1]]] for p in ps[6:]] + [[[p[1]], [p[0]]] for p in ps[6:9]]})
     # a domain tagged with the target's own population (an experiment in the target): policy on a node without
     # bidirected edges, graph unchanged, together with one ordinary domain
